@@ -44,7 +44,8 @@ ASSUMPTIONS = [
 CHUNK = 1
 WORKERS = 12
 
-UNITS = {'A': (32.0, 3200.0, 6.0), 'B': (2000.0, 208774.9025637363, 6912.0000000001), 'C': (500.0, 7.0, 3)}
+UNITS = {'A': (32.0, 3200.0, 6.0), 'B': (2000.0, 208774.9025637363, 6912.0000000001), 'C': (500.0, 7.0, 3),
+         'D': (123.0, 77.0, (1728 ** 3) ** (1 / 3))}     # D: ppd stored as the cube root of NP, a hair below the integer it means
 DT = {'f4': np.float32, 'f8': np.float64}
 RVCOLS = ('pos', 'vel', 'aux')
 PIDCOLS = ('pid', 'lagr_pos', 'tagged', 'density', 'lagr_idx', 'aux')
@@ -57,7 +58,7 @@ def BOUNDS(tier):
 
 
 HEADERS = {'quick': ['snap', 'lc', 'lcother'], 'thorough': ['snap', 'bare', 'lc', 'lc2', 'lcother']}
-UNITSETS = {'quick': ['A'], 'thorough': ['A', 'B', 'C']}     # quick visits B and C on the light-cone n=5 files only
+UNITSETS = {'quick': ['A'], 'thorough': ['A', 'B', 'C', 'D']}     # quick visits B and C on the light-cone n=5 files only
 
 
 # ------------------------------------------------------------------------------------------------ cases
@@ -80,10 +81,14 @@ def cases(tier, seed):
                                        full=full and un == 'A')
     # quick: unit sets B and C on the light-cone header only
     if not thorough:
-        for un in ('B', 'C'):
+        for un in ('B', 'C', 'D'):
             for col in ('rvint', 'pack9', 'packedpid', 'pid'):
                 for dt in ('f4', 'f8'):
                     yield dict(kind='single', cols=[[col, DATATYPE[col], 1]], hdr='lc', n=5, un=un, comp=None, dt=dt, full=False)
+    # rvint stored flat
+    for n in (1, 5):
+        for dt in ('f4', 'f8'):
+            yield dict(kind='single', cols=[['rvint', 'rvint', 1]], hdr='snap', n=n, un='A', comp=None, dt=dt, full=False, flat_rvint=True)
     # one known column next to unknown ones: detection must ignore them
     for col in ('rvint', 'pack9', 'packedpid', 'pid'):
         for n in ((5,) if not thorough else (0, 1, 5)):
@@ -170,6 +175,8 @@ def build(case):
     for name, dtype_, salt in case['cols']:
         if dtype_ == 'rvint':
             raw = F.make_rvint(n, salt)
+            if case.get('flat_rvint'):
+                raw = np.ascontiguousarray(raw).reshape(-1)      # stored flat as (3N,): still N particles
         elif dtype_ == 'pack9':
             raw, _ = F.make_pack9(n, salt)
         elif dtype_ == 'pidlike':
@@ -179,7 +186,7 @@ def build(case):
         data[name] = raw
         ct = F.coltype_of(name)
         if ct is not None and ct == dtype_:
-            refs_[name] = (ct, F.reference(ct, raw, hdr))
+            refs_[name] = (ct, F.reference(ct, raw.reshape(-1, 3) if (dtype_ == 'rvint' and raw.ndim == 1) else raw, hdr))
     return hdr, data, refs_
 
 
@@ -303,6 +310,8 @@ def _run(case, d):
                     bad('pack9:aux:not-raw', f'{what}: aux rows are not raw records of the file')
                 elif [bytes(r) for r in a] != prt:
                     X['pack9_aux_rows_not_particle_aligned'] += 1
+            elif c == 'aux' and case.get('flat_rvint'):
+                pass        # raw words of a flat (3N,) column are not one-per-particle; only pos/vel are defined for this layout
             else:
                 r, kind = ref[c]
                 X['columns_compared'] += 1
